@@ -22,6 +22,8 @@ VERIF_REPO="$W" /verif/baseline.sh; echo "baseline with patch: exit $? (expected
 echo "== run checks against /repo with the patch applied"
 git -C /repo diff --quiet || { echo "/repo has uncommitted changes; refusing"; exit 2; }
 git -C /repo apply "$SEED/patch.diff" || exit 2
+# evidence and replays of runs against a modified tree go to a scratch root, never into /verif
+export VERIF_OUT_ROOT=/tmp/seed-vroot; mkdir -p $VERIF_OUT_ROOT; cp /verif/known_findings.txt $VERIF_OUT_ROOT/
 for id in "$@"; do
   out=$(cd /verif && ./run "$id" quick 2>&1); code=$?
   echo "-- $id exit=$code"; echo "$out" | grep -E "^(VIOLATION|KNOWN-FINDING|C[0-9]+ quick)" | cut -c1-260 | head -8
